@@ -284,6 +284,14 @@ def check_bookkeeping(st, site, kopt_before):
 # C16: identities
 # ---------------------------------------------------------------------------------------------------------------
 
+MARGINS = {}
+
+
+def _margin(name, err, tol):
+    if tol > 0 and math.isfinite(err):
+        MARGINS[name] = max(MARGINS.get(name, 0.0), err / tol)
+
+
 def check_fit(st, site):
     M = st.model
     out = []
@@ -301,6 +309,7 @@ def check_fit(st, site):
     pred = np.array([M.model_value(M.xpt(k), d_based_at_xopt=False, with_const_term=True) for k in range(npt)])
     if npt <= n + 1:
         err = float(np.max(np.abs(pred - F)))
+        _margin('c16.interpolation', err, tol)
         if err > tol:
             out.append(V('C16', 'interpolation_not_exact', site, 'max |m(y_k) - r_k| = %.3e > %.3e (npt=%d, n=%d, cond=%.2e)' % (err, tol, npt, n, kappa)))
     else:
@@ -308,6 +317,7 @@ def check_fit(st, site):
         ne = W.T.dot(res)
         err = float(np.max(np.abs(ne)))
         tol2 = tol * float(np.linalg.norm(W, 2)) * math.sqrt(npt) * kappa ** 0      # normal equations: W'(W dg - rhs) ~ 0
+        _margin('c16.regression', err, tol2 * 10)
         if err > tol2 * 10:
             out.append(V('C16', 'regression_residual_not_orthogonal', site, "max |W'(fit - data)| = %.3e > %.3e (npt=%d, n=%d, cond=%.2e)" % (err, tol2 * 10, npt, n, kappa)))
     return out
@@ -330,10 +340,12 @@ def check_lagrange(st, site):
     tol = 1e3 * EPS * kappa * max(1.0, float(np.max(np.abs(M.points[:npt]))) / math.sqrt(max(float(np.max(M.distances_to_xopt())), 1e-300)))
     if npt <= n + 1:
         err = float(np.max(np.abs(L - np.eye(npt))))
+        _margin('c16.lagrange_delta', err, tol)
         if err > tol:
             out.append(V('C16', 'lagrange_not_delta', site, 'max |L_k(y_j) - delta_kj| = %.3e > %.3e (npt=%d, n=%d, cond=%.2e)' % (err, tol, npt, n, kappa)))
     else:
         err = float(np.max(np.abs(np.sum(L, axis=1) - 1.0)))
+        _margin('c16.lagrange_sum', err, tol * npt)
         if err > tol * npt:
             out.append(V('C16', 'lagrange_do_not_sum_to_one', site, 'max |sum_k L_k(y_j) - 1| = %.3e > %.3e' % (err, tol * npt)))
     return out
@@ -597,6 +609,7 @@ def leg_model(base_seed, index, opts):
     res = L.new_result()
     checks = tuple(opts['checks'])
     rnd = S.rng_for(base_seed, index, 'model-machine')
+    MARGINS.clear()
     dig = hashlib.sha256()
     kinds = {}
     nops = 0
@@ -626,6 +639,8 @@ def leg_model(base_seed, index, opts):
     res['path_sigs'] = sorted(seen)
     res['stats'] = dict(('ops.' + k, v) for k, v in kinds.items())
     res['stats']['model_operations'] = nops
+    for k_, v_ in MARGINS.items():
+        res['stats'][k_ + '.err_over_tol.max'] = v_
     res['wall'] = time.time() - t0
     return res
 
